@@ -1,6 +1,8 @@
 import CnlProofs.Scaled
 import CnlProofs.ScaledFloat
 import CnlProofs.ScaledMixed
+import CnlModel.Wrap
+import CnlProofs.CIntLemmas
 /-!
 # C04 — integer ↔ integer conversions between `scaled_integer`s preserve the value or truncate toward zero
 
@@ -442,5 +444,105 @@ example : ¬ i8.InRange (100 * pw 10 (1 : Int).toNat * pw 2 (-2 : Int).toNat)
     ∧ ScaledMixed.convert i8 1 10 i32 2 2 100 = .ok (i32, -6) := by decide +kernel
 
 end MixedRadix
+
+
+/-! ## `from_rep`/`to_rep` and `wrap`/`unwrap` are exact inverses (model `CnlModel/Wrap.lean`, lines `C04w`)
+
+`unwrap_wrap`, `wrap_unwrap` (every nest of scaled_integer / overflow_integer / rounding_integer layers, every built-in
+argument type, every value: type and value come back), `toRep_fromRep_*`, `fromRep_toRep_*`; for archetypes that fix
+their own storage type (`elastic_integer`) the value comes back exactly when the storage holds it
+(`unwrap_wrap_value`, `toRep_fromRep_el`) — otherwise the conversion into the storage is the built-in one, which the
+correspondence lines observe.  `wide_integer` archetypes are not modelled here. -/
+namespace WrapInverse
+open Cnl.Wrap
+
+
+theorem leafTy_rebind_pure (T : Ty) (hT : PureNest T) (R : IntTy) : leafTy (rebind T R) = some R := by
+  induction T with
+  | int t => simp [rebind, leafTy]
+  | sc r e x ih => simpa [rebind, leafTy] using ih hT
+  | ov r t ih => simpa [rebind, leafTy] using ih hT
+  | rd r m ih => simpa [rebind, leafTy] using ih hT
+  | flt _ => exact absurd hT (by simp [PureNest])
+  | el _ _ _ => exact absurd hT (by simp [PureNest])
+  | wd _ _ _ => exact absurd hT (by simp [PureNest])
+  | fr _ _ _ _ => exact absurd hT (by simp [PureNest])
+
+theorem rebind_rebind (T : Ty) (R S : IntTy) : rebind (rebind T R) S = rebind T S := by
+  induction T with
+  | int t => simp [rebind]
+  | sc r e x ih => simp [rebind, ih]
+  | ov r t ih => simp [rebind, ih]
+  | rd r m ih => simp [rebind, ih]
+  | flt _ => simp [rebind]
+  | el d n ih => cases n <;> simp [rebind]
+  | wd _ _ _ => simp [rebind]
+  | fr _ _ _ _ => simp [rebind]
+
+/-- **`unwrap(wrap<T>(r)) = r`** for every nest `T` of scaled_integer / overflow_integer / rounding_integer layers, every
+built-in argument type and EVERY value: type and value come back (the nest is rebuilt around the argument's type,
+nothing is converted). -/
+theorem unwrap_wrap (T : Ty) (hT : PureNest T) (r : TV) (hb : 1 ≤ r.1.bits) (hr : r.1.InRange r.2) :
+    (wrap T r).bind unwrap = some r := by
+  have h := leafTy_rebind_pure T hT r.1
+  simp [wrap, unwrap, h, convert, IntTy.wrap_id hb hr]
+
+/-- for an archetype that fixes its own storage (`elastic_integer` at the bottom of the nest): the value comes back
+exactly when that storage holds it -/
+theorem unwrap_wrap_value (T : Ty) (r : TV) (L : IntTy) (hL : leafTy (rebind T r.1) = some L) (hb : 1 ≤ L.bits)
+    (hfit : L.InRange r.2) : (wrap T r).bind unwrap = some (L, r.2) := by
+  simp [wrap, unwrap, hL, convert, IntTy.wrap_id hb hfit]
+
+/-- **`wrap<T>(unwrap(x)) = x`** for every number `x` whose type is `T` rebuilt around its own innermost type (in
+particular for every `x` of a pure nest type `T`) -/
+theorem wrap_unwrap (x : Num) (L : IntTy) (hL : leafTy x.1 = some L) (hb : 1 ≤ L.bits) (hx : L.InRange x.2)
+    (hself : rebind x.1 L = x.1) : (unwrap x).bind (wrap x.1) = some x := by
+  simp [wrap, unwrap, hL, hself, convert, IntTy.wrap_id hb hx]
+
+theorem rebind_self_pure (T : Ty) (hT : PureNest T) (L : IntTy) (hL : leafTy T = some L) : rebind T L = T := by
+  induction T with
+  | int t => simp [leafTy] at hL; simp [rebind, hL]
+  | sc r e x ih => simp [leafTy] at hL; simp [rebind, ih hT hL]
+  | ov r t ih => simp [leafTy] at hL; simp [rebind, ih hT hL]
+  | rd r m ih => simp [leafTy] at hL; simp [rebind, ih hT hL]
+  | flt _ => exact absurd hT (by simp [PureNest])
+  | el _ _ _ => exact absurd hT (by simp [PureNest])
+  | wd _ _ _ => exact absurd hT (by simp [PureNest])
+  | fr _ _ _ _ => exact absurd hT (by simp [PureNest])
+
+/-- **`to_rep(from_rep<T>(r)) = r`** for the three wrapper archetypes: the layer is rebuilt around the argument's
+type, value untouched — for EVERY value of every built-in type -/
+theorem toRep_fromRep_sc (a : Ty) (e : Int) (q : Nat) (r : TV) : (fromRep (.sc a e q) r).bind toRep = some r := by
+  simp [fromRep, toRep]
+theorem toRep_fromRep_ov (a : Ty) (t : OvTag) (r : TV) : (fromRep (.ov a t) r).bind toRep = some r := by
+  simp [fromRep, toRep]
+theorem toRep_fromRep_rd (a : Ty) (m : RdMode) (r : TV) : (fromRep (.rd a m) r).bind toRep = some r := by
+  simp [fromRep, toRep]
+
+/-- **`from_rep<T>(to_rep(x)) = x`** for a wrapper over a built-in representation -/
+theorem fromRep_toRep_sc (R : IntTy) (e : Int) (q : Nat) (v : Int) :
+    (toRep (.sc (.int R) e q, v)).bind (fromRep (.sc (.int R) e q)) = some (.sc (.int R) e q, v) := by
+  simp [fromRep, toRep]
+theorem fromRep_toRep_ov (R : IntTy) (t : OvTag) (v : Int) :
+    (toRep (.ov (.int R) t, v)).bind (fromRep (.ov (.int R) t)) = some (.ov (.int R) t, v) := by
+  simp [fromRep, toRep]
+theorem fromRep_toRep_rd (R : IntTy) (m : RdMode) (v : Int) :
+    (toRep (.rd (.int R) m, v)).bind (fromRep (.rd (.int R) m)) = some (.rd (.int R) m, v) := by
+  simp [fromRep, toRep]
+
+/-- `elastic_integer<D, N>`: `to_rep(from_rep(r))` gives the value back exactly when the storage type holds it -/
+theorem toRep_fromRep_el (d : Nat) (n : IntTy) (r : TV) (L : IntTy)
+    (hL : Elastic.repTy d ⟨n.bits, r.1.signed⟩ = some L) (hb : 1 ≤ L.bits) (hfit : L.InRange r.2) :
+    (fromRep (.el d (.int n)) r).bind toRep = some (L, r.2) := by
+  simp [fromRep, toRep, hL, convert, IntTy.wrap_id hb hfit]
+
+-- non-vacuity: a three-layer nest around a 64-bit argument; an elastic leaf that holds / does not hold the argument
+example : (wrap (.sc (.ov (.rd (.int i8) .nrst) .sat) (-2) 2) (i64, 5000000000)).bind unwrap = some (i64, 5000000000) :=
+  unwrap_wrap _ (by simp [PureNest]) _ (by decide) (by decide)
+example : (wrap (.sc (.el 10 (.int i32)) (-3) 2) (i16, -77)).bind unwrap = some (i32, -77) := by decide +kernel
+example : (wrap (.el 10 (.int i32)) (i64, 5000000000)).bind unwrap = some (i32, 705032704) := by decide +kernel
+
+
+end WrapInverse
 
 end Cnl.C04
